@@ -225,6 +225,17 @@ func checkMaps(side string, af *ast.File, df *dst.File, toDst map[ast.Node]dst.N
 			}
 		}
 	}
+	// File.Imports lists the import specs of the declarations, in order, on both sides (a restored ast has none)
+	if len(af.Imports) > 0 || side == "decorator" || side == "decorator-package" {
+		if len(af.Imports) != len(df.Imports) {
+			return side + ":file-imports-length", fmt.Sprintf("ast File.Imports has %d entries, dst File.Imports %d", len(af.Imports), len(df.Imports))
+		}
+		for i, is := range af.Imports {
+			if toDst[is] != dst.Node(df.Imports[i]) {
+				return side + ":file-imports-entry", fmt.Sprintf("File.Imports[%d]: the image of the ast spec is not the dst file's entry", i)
+			}
+		}
+	}
 	for _, d := range allNodes(df) {
 		a, ok := toAst[d]
 		if !ok {
